@@ -44,58 +44,24 @@ Qed.
    first ++ "\n".join(parts) stripped of final newlines; not re-expressed over result.split("\n") (missing: wrapped
    lines contain no newline, and rstrip("\n") only removes empty last lines). *)
 Theorem wrap_width_bound_partial text width offset indent out :
-  text <> ""%string -> wrap text width offset indent = Ok out ->
-  exists first text2, wrap_head (repl_nlsp text) width offset = (Ok first, text2) /\
-    first_ok (repl_nlsp text) width offset first /\
+  is_empty (wrap_prologue text) = false -> wrap text width offset indent = Ok out ->
+  exists first text2, wrap_head (repl_nlsp (wrap_prologue text)) width offset = (Ok first, text2) /\
+    first_ok (repl_nlsp (wrap_prologue text)) width offset first /\
     (out = strip first \/
      exists parts, out = rstrip_nl (first ++ sjoin nl1 parts) /\ Forall (part_ok width indent) parts).
 Proof.
-  intros Hne H. unfold wrap in H. destruct text as [|c text]; [congruence|]. cbn [is_empty] in H.
-  destruct (wrap_head (repl_nlsp (String c text)) width offset) as [r text2] eqn:E.
+  intros Hne H. unfold wrap in H. destruct (is_empty text) eqn:Et.
+  { destruct text; [|discriminate]. discriminate Hne. }
+  rewrite Hne in H.
+  destruct (wrap_head (repl_nlsp (wrap_prologue text)) width offset) as [r text2] eqn:E.
   destruct r; try discriminate. exists s, text2. split; [reflexivity|].
   split; [eapply wrap_head_first_ok; eauto|].
-  unfold wrap_tail in H. destruct (is_empty _); [left; now inversion H|].
+  unfold wrap_tail in H. destruct (is_empty (sdrop _ _)); [left; now inversion H|].
   destruct (fill_tokens _ _ _) as [[parts|]|] eqn:Ef; try discriminate.
   right. exists parts. split; [now inversion H | eapply fill_tokens_width; eauto].
 Qed.
 
-(* ---------------------------------------------------------------- where the words are not preserved *)
-(* the hypothesis under which the slice text[len(first):] is right: the first line fits, or it has no TAB and does
-   not start with whitespace *)
-Definition first_line_safe (text : string) (width offset : nat) : bool :=
-  let text1 := repl_nlsp text in
-  let line0 := match split_on nl text1 with l :: _ => l | [] => ""%string end in
-  (String.length (first0_of text1) <=? width - offset) ||
-  (negb (contains tab line0) && match line0 with String c _ => negb (is_pyspace c) | EmptyString => true end).
-
-Definition t_tab : string := sx [97;9;98;32;99;99;99;99;32;100;100;100;100;32;101;101;101;101]%N.  (* a TAB b cccc dddd eeee *)
-
-(* DESIGN section 9 no. 6: a TAB in an over-long first line: the slice uses the length of the tab-expanded line *)
-Lemma wrap_tab_refuted : exists text width offset indent out,
-  offset < width /\ wrap text width offset indent = Ok out /\ pywords out <> pywords text.
-Proof.
-  exists t_tab, 12, 0, 0. eexists. split; [lia|]. split; [vm_compute; reflexivity|]. vm_compute. discriminate.
-Qed.
-
-(* an over-long first line that starts with whitespace: textwrap drops the leading blanks when the first word does
-   not fit after them, the slice does not: here the letter b comes out twice *)
-Lemma wrap_leading_ws_refuted : exists text width offset indent out,
-  offset < width /\ contains tab text = false /\ wrap text width offset indent = Ok out /\ pywords out <> pywords text.
-Proof.
-  exists "  ab cd"%string, 3, 0, 0. eexists. split; [lia|]. split; [reflexivity|]. split; [vm_compute; reflexivity|].
-  vm_compute. discriminate.
-Qed.
-
-(* DESIGN section 9 no. 17: an over-long first line of blanks only: textwrap returns no line, initial[0] raises *)
-Lemma wrap_blank_first_line_refuted : exists text width offset indent,
-  offset < width /\ wrap text width offset indent = IndexErr.
-Proof. exists "    "%string, 3, 0, 0. split; [lia | vm_compute; reflexivity]. Qed.
-
-(* all three witnesses are outside the hypothesis, and ordinary comments are inside it *)
-Example first_line_safe_examples :
-  first_line_safe t_tab 12 0 = false /\ first_line_safe "  ab cd" 3 0 = false /\ first_line_safe "    " 3 0 = false /\
-  first_line_safe "The quick brown fox jumps over the lazy dog. The quick brown fox" 40 7 = true /\
-  wrap "The quick brown fox jumps over the lazy dog. The quick brown fox" 40 7 4 =
-    Ok (sx [84;104;101;32;113;117;105;99;107;32;98;114;111;119;110;32;102;111;120;32;106;117;109;112;115;32;111;118;101;114;10;
-            32;32;32;32;116;104;101;32;108;97;122;121;32;100;111;103;46;32;84;104;101;32;113;117;105;99;107;32;98;114;111;119;110;32;102;111;120]%N).
-Proof. vm_compute. repeat split. Qed.
+(* when the prologue leaves nothing (the comment is blank), the result is the empty string *)
+Lemma wrap_blank text width offset indent :
+  is_empty (wrap_prologue text) = true -> wrap text width offset indent = Ok ""%string.
+Proof. intro H. unfold wrap. destruct (is_empty text); [reflexivity|]. now rewrite H. Qed.
